@@ -15,7 +15,7 @@ RULE = ("python templater: every string over {'{','}','a','.',':','!',' '} up to
         "fields, dotted / indexed / missing names, adjacent fields, context with and without the `sqlfluff` mapping); a malformed stream "
         "(brace soup, positional/empty fields). Every case goes through the real PythonTemplater.process (render_func and re.sub result "
         "captured), CPython's str.format and formatter_parser, an independent string.Formatter arbiter with the dotted-name convention, and "
-        "(all of them in thorough, the exhaustive stream plus every fourth other case in quick) the Coq model with oracle tables recorded "
+        "(all of them in thorough; in quick the exhaustive strings up to length 3, every second of length 4 and every fourth other case) the Coq model with oracle tables recorded "
         "from CPython. placeholder templater: for each of the 12 KNOWN_STYLES, SQL assembled from literal pieces and 0-6 parameters written "
         "in that style (named / numeric / positional, quoted, braced, repeated, at both ends, unicode names, `x::int` casts), with full / "
         "partial / empty value tables (str and non-str values, override_context and config section), checked against the by-construction "
@@ -30,6 +30,7 @@ ASSUMPTIONS = [
     "PythonTemplater (slice_file heuristics) is not modelled: its effect on templated_str is monitored end to end",
     "regex.finditer is an oracle for the placeholder templater: the model receives the real matches; sortedness and non-overlap of "
     "the spans are checked on every shipped match list",
+    "membership in the fragment of C09_dot_hack_correct_partial is decided by a Python mirror of safe_list, compared with Coq's safe_list on a sample",
 ]
 TRUSTED_BASE = ["hand models Model/PyFormat.v (re.sub dot hack, str.format grammar and field lookup) and Model/Placeholder.v (process loop)",
                 "CPython 3.12 str.format / string.Formatter as the arbiter of what a valid format string renders to"]
@@ -269,6 +270,134 @@ def classify(s):
     return "other"
 
 
+# ---- the fragment of the theorem C09_dot_hack_correct_partial, mirrored (and compared with Coq's safe_list on a sample) ----
+
+def to_toks(s, top=True):
+    """format string -> tok tree of Model/PyFormat.v section 5, or None when s is not of that shape"""
+    toks, i = [], 0
+    while i < len(s):
+        c = s[i]
+        if c == "{":
+            if s[i + 1:i + 2] == "{":
+                if not top:
+                    return None
+                toks.append(("esc", "{"))
+                i += 2
+                continue
+            j = i + 1
+            while j < len(s) and s[j] not in "{}:![]":
+                j += 1
+            if j >= len(s) or s[j] in "{[]":
+                return None
+            name, conv, spec = s[i + 1:j], None, None
+            if s[j] == "!":
+                if j + 2 >= len(s) or s[j + 2] not in ":}":
+                    return None
+                conv = s[j + 1]
+                j += 2
+            if s[j] == ":":
+                depth, k = 0, j + 1
+                while k < len(s):
+                    if s[k] == "{":
+                        depth += 1
+                    elif s[k] == "}":
+                        if depth == 0:
+                            break
+                        depth -= 1
+                    k += 1
+                if k >= len(s):
+                    return None
+                spec = to_toks(s[j + 1:k], False)
+                if spec is None:
+                    return None
+                j = k
+            toks.append(("fld", name, conv, spec))
+            i = j + 1
+        elif c == "}":
+            if s[i + 1:i + 2] == "}" and top:
+                toks.append(("esc", "}"))
+                i += 2
+            else:
+                return None
+        else:
+            toks.append(("chr", c))
+            i += 1
+    return toks
+
+
+def unparse_toks(toks):
+    out = []
+    for t in toks:
+        if t[0] == "chr":
+            out.append(t[1])
+        elif t[0] == "esc":
+            out.append(t[1] * 2)
+        else:
+            _f, name, conv, spec = t
+            out.append("{" + name + ("!" + conv if conv is not None else "") + (":" + unparse_toks(spec) if spec is not None else "") + "}")
+    return "".join(out)
+
+
+def _not_int(name):
+    acc = 0
+    for ch in name:
+        if "0" <= ch <= "9":
+            d = ord(ch) - 48
+            if acc > (9223372036854775807 - d) // 10:
+                return False
+            acc = acc * 10 + d
+        else:
+            return True
+    return False
+
+
+def safe_tok(top, t):
+    if t[0] == "chr":
+        return t[1] not in "{}"
+    if t[0] == "esc":
+        return top
+    _f, name, conv, spec = t
+    if any(ch in "{}:![]" for ch in name):
+        return False
+    if "." in name:
+        if not _not_int(name) or conv is not None:
+            return False
+        if spec is None:
+            return True
+        return top and all(x[0] == "chr" and x[1] not in "{}" and not re.match(r"\s", x[1]) for x in spec)
+    if conv is not None and conv in "{}:.":
+        return False
+    return spec is None or all(safe_tok(False, x) for x in spec)
+
+
+def safe_list(toks):
+    for i, t in enumerate(toks):
+        if not safe_tok(True, t):
+            return False
+        rest = unparse_toks(toks[i + 1:])
+        if t[0] == "esc" and t[1] == "{":
+            if "." in re.match(r"[^:}]*", rest).group(0):
+                return False
+        if t[0] == "fld" and t[3] is not None and "." in t[1]:
+            if "}" in re.match(r"\S*", rest).group(0):
+                return False
+    return True
+
+
+def ctoks(toks):
+    items = []
+    for t in toks:
+        if t[0] == "chr":
+            items.append("(TChr %d%%N)" % ord(t[1]))
+        elif t[0] == "esc":
+            items.append("(TEsc %d%%N)" % ord(t[1]))
+        else:
+            _f, name, conv, spec = t
+            items.append("(TFld %s %s %s)" % (coq.ctext(name), "None" if conv is None else "(Some %d%%N)" % ord(conv),
+                                              "None" if spec is None else "(Some %s)" % ctoks(spec)))
+    return coq.clist(items) if items else "(@nil tok)"
+
+
 class _ReShim:
     """Stands in for the `re` module inside sqlfluff.core.templaters.python: forwards everything, records re.sub calls."""
 
@@ -437,6 +566,7 @@ def gen_malformed(rng):
 # ---- running ---------------------------------------------------------------------------------------------------
 
 MODEL_FN = "harness_case"
+FRAG_FN = "fun c : list tok * text => (safe_list (fst c), text_eqb (unparse (fst c)) (snd c))"
 CONTEXTS = {}
 
 
@@ -476,6 +606,7 @@ def run_python_part(ctx, coq_ok):
     cases = uniq
 
     lits, expect, all_idx = [], [], []
+    frag_lits, frag_expect = [], []
     pattern_checked = False
     for ci, (s, cname, stream) in enumerate(cases):
         # every 9th grid case takes its context from a FluffConfig section instead of override_context
@@ -483,7 +614,7 @@ def run_python_part(ctx, coq_ok):
         live = r["live"]
         if live != dict_ctx(cname):
             ctx.broken_obligation("adapter: live context differs from the configured one", {"input": s, "context": cname, "live": repr(live)})
-            return lits, expect
+            return lits, expect, frag_lits, frag_expect
         subs = r["subs"]
         # -- the regex under the model is the regex in the source
         if subs and not pattern_checked:
@@ -493,7 +624,7 @@ def run_python_part(ctx, coq_ok):
                                       {"source_pattern": subs[0][0], "source_repl": subs[0][1], "modelled": [DOT_PATTERN, DOT_REPL]})
         if not subs or any(c[2] != s or c[3] != subs[0][3] for c in subs):
             ctx.broken_obligation("adapter: render_func did not call re.sub on the raw string", {"input": s, "calls": len(subs)})
-            return lits, expect
+            return lits, expect, frag_lits, frag_expect
         hacked = subs[0][3]
         # -- monitor: the arbiter decides
         arb = arbiter(s, live)
@@ -523,6 +654,21 @@ def run_python_part(ctx, coq_ok):
         elif proc[0] == "ok":
             ctx.violation("python-invalid-renders", "python templater renders a format string that str.format (dotted-name convention) rejects",
                           {"input": inp, "arbiter": arb, "got": proc, "rewritten": hacked}, attrs={"mechanism": classify(s)})
+        # -- the theorem's fragment: there the model says render_func == specification, so the real render_func must agree with the arbiter
+        toks = to_toks(s)
+        if toks is not None and unparse_toks(toks) != s:
+            ctx.broken_obligation("harness: tok tree does not unparse to its source", {"input": s})
+        in_fragment = toks is not None and safe_list(toks)
+        if in_fragment:
+            ctx.count("py:in-proved-fragment:%s" % ("valid" if arb[0] == "ok" else "invalid"))
+            arb_kind = {"KeyError": "ETemplater", "ValueError": "EValue", "IndexError": "EIndex"}.get(arb[1], "ERuntime")
+            if rendered is None or (rendered[0] == "ok") != (arb[0] == "ok") or (arb[0] == "ok" and rendered[1] != arb[1]) \
+                    or (arb[0] != "ok" and rendered[1] != arb_kind):
+                ctx.broken_obligation("theorem C09_dot_hack_correct_partial predicts render_func == str.format with the dotted-name convention "
+                                      "on this format string, the real render_func disagrees", {"input": inp, "render_func": rendered, "arbiter": arb})
+        if toks is not None and len(frag_lits) < (400 if quick else 4000) and (in_fragment or len(frag_lits) % 2):
+            frag_lits.append("(%s, %s)" % (ctoks(toks), coq.ctext(s)))
+            frag_expect.append((s, in_fragment))
         # -- arbiter self-check: without dotted names it IS str.format
         direct = py_str_format(s, live)
         if not dotted:
@@ -535,12 +681,13 @@ def run_python_part(ctx, coq_ok):
         idx = len(all_idx)
         all_idx.append(idx)
         # quick tier: the Coq correspondence runs on the whole exhaustive stream and on every third case of the others
-        if not quick or stream == "exhaustive" or idx % 4 == 0:
+        if not quick or (stream == "exhaustive" and (len(s) <= 3 or idx % 2 == 0)) or (stream != "exhaustive" and idx % 4 == 0):
             want_parse = (not quick) or stream in ("exhaustive", "grid", "malformed")
             lits.append("(%s, %s, %s)" % (coq.ctext(s), orc.coq("kw_" + cname), coq.cbool(want_parse)))
             expect.append((s, cname, rendered, direct, hacked, arb, want_parse))
     ctx.coverage_extra["python_cases"] = len(cases)
-    return lits, expect
+    ctx.coverage_extra["python_cases_in_proved_fragment"] = ctx.dist.get("py:in-proved-fragment:valid", 0) + ctx.dist.get("py:in-proved-fragment:invalid", 0)
+    return lits, expect, frag_lits, frag_expect
 
 
 def python_defs():
@@ -687,10 +834,7 @@ def gen_placeholder_case(rng, style):
                 pieces.append(("lit", ""))
             else:
                 pieces.append(("lit", rng.choice(LIT_MID)))
-    last = rng.choice(LIT_LAST)
-    if k and last and style == "dollar_surround" and False:
-        pass
-    pieces.append(("lit", last))
+    pieces.append(("lit", rng.choice(LIT_LAST)))
     mode = rng.choice(["full", "partial", "empty"])
     user = {}
     for n in set(names):
@@ -1011,8 +1155,15 @@ def run(ctx, coq_ok):
     with ThreadPoolExecutor(max_workers=4) as pool:   # never more than 4 coqc processes
         ph_lits, ph_expect = run_placeholder_part(ctx, coq_ok)
         ph_futs = submit_shards(pool, ["Model.Placeholder"], PH_FN, ph_lits, 1 if quick else 8) if coq_ok else []
-        py_lits, py_expect = run_python_part(ctx, coq_ok)
-        py_futs = submit_shards(pool, ["Model.PyFormat"], MODEL_FN, py_lits, 3 if quick else 40, defs=python_defs()) if coq_ok else []
+        py_lits, py_expect, frag_lits, frag_expect = run_python_part(ctx, coq_ok)
+        frag_futs = submit_shards(pool, ["Model.PyFormat"], FRAG_FN, frag_lits, 1 if quick else 2) if coq_ok else []
+        py_futs = submit_shards(pool, ["Model.PyFormat"], MODEL_FN, py_lits, 2 if quick else 40, defs=python_defs()) if coq_ok else []
         if coq_ok:
             check_placeholder_model(ctx, ph_expect, gather(ph_futs))
             check_python_model(ctx, py_expect, gather(py_futs))
+            for (src, in_frag), m in zip(frag_expect, gather(frag_futs)):
+                if m[1] is not True or m[0] != in_frag:
+                    ctx.broken_obligation("correspondence Model.PyFormat.safe_list / unparse vs the harness mirror of the theorem's fragment",
+                                          {"input": src, "model_safe_list": m[0], "model_unparse_is_source": m[1], "harness_safe": in_frag})
+                    break
+            ctx.coverage_extra["fragment_membership_cases"] = len(frag_expect)
